@@ -524,6 +524,7 @@ func TestRun(t *testing.T) {
 	slowDownload(rec, vr.Scale(64, 1500), seed)
 	tokenFamilies(rec, vr.Scale(60, 1200), seed)
 	abandonedThenReused(rec, vr.Scale(24, 360))
+	uploadToForeignServer(rec, vr.Scale(36, 720))
 	rec.Assume("multiplicity is required only under faults a datagram network produces by itself (loss, reordering, duplication/replay with the same message ID); copies re-labelled with a fresh message ID or a foreign token are new requests as far as CoAP can tell, so only integrity is required for them")
 	rec.Assume("a call that returns an error or a non-2.xx code is a failed exchange, which the statement allows; fault-free transfers must succeed")
 	rec.Assume("termination = every call returned within 20 s after its context deadline")
